@@ -12,6 +12,8 @@
 (*     [kind |-> "anchor", cls, v, bytes]  a hand-written byte string       *)
 (*     [kind |-> "giant", cls, rest, rep, elem, K]  a message whose array    *)
 (*          field rep holds K copies of elem (body of tens of MiB)          *)
+(*     [kind |-> "hist", cls, steps]  the successive values of ONE message   *)
+(*          object that is sent, changed, sent again ...                    *)
 (*     [kind |-> "conn", obf, msgs]   messages sent concurrently on one      *)
 (*          connection (theorems about StreamIntact)                        *)
 (*  For msg / obf cases Eval also prints the prescribed bytes              *)
@@ -144,6 +146,17 @@ EvalGiant ==
                      Len(p.unit) > 0 /\ RepLen(p, 2) = Len(b2) /\ RepLen(p, Case.K) > RepLen(p, 2) - 1,
                      TRUE, TRUE)
 
+\* a history of values of one object: all in the domain, and a changed value has a different wire
+\* form (so a sender that writes the bytes of an earlier value is distinguishable)
+EvalHist ==
+  /\ stage = "todo" /\ Case.kind = "hist"
+  /\ \E m \in {Messages[Case.cls]} :
+       \E fr \in {[i \in 1..Len(Case.steps) |-> Body(m, Case.steps[i])]} :
+         Finish(\A i \in 1..Len(Case.steps) : MsgDom(m, Case.steps[i]),
+                \A i, j \in 1..Len(Case.steps) : (Case.steps[i] # Case.steps[j]) => fr[i] # fr[j],
+                \E i, j \in 1..Len(Case.steps) : fr[i] # fr[j],
+                TRUE, TRUE)
+
 \* concurrently sent messages: every order of whole frames is intact, a frame inside a frame is not
 EvalConn ==
   /\ stage = "todo" /\ Case.kind = "conn"
@@ -164,7 +177,7 @@ EvalConn ==
 
 Stay == stage = "done" /\ UNCHANGED vars
 
-Next == EvalMsg \/ EvalObf \/ EvalAnchor \/ EvalGiant \/ EvalConn \/ EvalPrim \/ EvalArr \/ EvalDoc \/ Stay
+Next == EvalMsg \/ EvalObf \/ EvalAnchor \/ EvalGiant \/ EvalHist \/ EvalConn \/ EvalPrim \/ EvalArr \/ EvalDoc \/ Stay
 Spec == Init /\ [][Next]_vars
 
 \* ---- the theorems ----------------------------------------------------------
